@@ -111,8 +111,9 @@ template <class P> struct poisoning {
     std::shared_ptr<matrix> system_matrix_ptr() const { return p.system_matrix_ptr(); }
 };
 
-// what the output vector of an apply() holds on entry must not matter: every call gets a different filling
-static double prefill() { static int k = 0; static const double V[] = {7.25, -3.5, 1e3, 0.0, -0.015625}; return V[k++ % 5]; }
+// what the output vector of an apply() holds on entry must not matter: every call gets a different filling (NaN included:
+// a preconditioner that scales its output by zero instead of overwriting it would let it through)
+static double prefill() { static int k = 0; static const double V[] = {7.25, -3.5, 1e3, 0.0, -0.015625, std::nan("")}; return V[k++ % 6]; }
 
 // a make_solver used as a preconditioner: constructed from (matrix, amg-like params), inner iteration capped
 template <class MS> struct nested : MS {
